@@ -38,6 +38,13 @@ theorem verify_fail_sends_nothing (s : Pins) (k : Key) (p : Presented) (pl : Lis
   intro x hx
   rcases h with ⟨a, b, h⟩ | h <;> rw [hx] at h <;> cases h
 
+/-- when the pin store fails during the lookup (or while pinning a first use), verification cannot be
+    completed: the connection is refused, nothing is sent, the store is untouched -/
+theorem store_fault_sends_nothing (s : Pins) (k : Key) :
+    (connectStoreFault s k).2.1 = .refused ∧ peerReceived (connectStoreFault s k).2.2 = [] ∧ (connectStoreFault s k).1 = s ∧
+    ∀ v, guarded v (connectStoreFault s k).2.2 = true :=
+  ⟨rfl, rfl, rfl, fun _ => rfl⟩
+
 /-- when it passes, the peer receives exactly the request, in order -/
 theorem accepted_request_intact (s : Pins) (k : Key) (p : Presented) (pl : List Nat) (r x : Nat)
     (h : (connect s k p pl r).2.1 = .accepted x) : peerReceived (connect s k p pl r).2.2 = pl :=
